@@ -16,7 +16,7 @@ from ..gen import c17_nets as G
 PID = "C17"
 KNOWN_LP_KEY = "stoich._positive_conservation_law_from_basis:LP-branch:false-negative"
 COQ_HEADER = ("From Coq Require Import List NArith ZArith.\nImport ListNotations.\n"
-              "From SK Require Import lib.Tok lib.C17_Farkas model.C17_Model model.C17_NodeModel model.C17_IntLaws model.C17_RawModel.\n")
+              "From SK Require Import lib.Tok lib.C17_Farkas model.C17_Model model.C17_NodeModel model.C17_IntLaws model.C17_RawModel model.C17_Fallback.\n")
 SHARD = 250
 IMPL_TIMEOUT = 2400
 COQ_TIMEOUT = 1500
@@ -44,10 +44,11 @@ TRUSTED_BASE = [
     "numpy/scipy numerics are NOT trusted and NOT modelled: their integer/boolean outputs are compared per input with certified exact values",
     "the certificate finders (harness/gen/c17_exact.py: integer echelon factorisation, exact Fraction simplex) are untrusted; only the Coq checkers are",
 ]
-ASSUMPTIONS = ["species labels, rule labels and edge ids are printable ASCII strings (Python str order = code point order); rule labels and edge ids "
+ASSUMPTIONS = ["fractional coefficients of caller-supplied graphs are multiples of 1/4 in the populations (exact in binary floating point)",
+               "species labels, rule labels and edge ids are printable ASCII strings (Python str order = code point order); rule labels and edge ids "
                "non-empty (add_rxn replaces an empty rule by its default); species labels may be empty",
                "network given as CRNHyperGraph (or its hypergraph_to_bipartite export); edge ids unique, sides are dicts with positive integer counts",
-               "scipy is installed (the LP branches are the ones analysed)"]
+               "scipy is installed (the LP branches are the ones analysed); the no-scipy population switches the module flag _SCIPY_AVAILABLE off instead of uninstalling"]
 TESTED_NOT_PROVED = [
     "float kernel bases annihilate S within 1e-9*max(1,|S|) and have full column rank (oracle, every case)",
     "witness m returned by compute_conservativity is > 0 and m^T S = 0 within 1e-8 (oracle, every case)",
@@ -95,7 +96,14 @@ def view_of(case, H):
     from synkit.CRN.Hypergraph.conversion import hypergraph_to_bipartite
     v = case.get("view", "hyper")
     if v == "bip_int":
-        return hypergraph_to_bipartite(H, integer_ids=True)
+        G = hypergraph_to_bipartite(H, integer_ids=True)
+        if case.get("frac_d"):
+            # FRACTIONAL coefficients on a caller-supplied graph (H2 + 1/2 O2 >> H2O): every coefficient c of the network is written
+            # c / d on the arc (d = 2 or 4, exact in binary floating point).  S_Q = S_Z / d: the matrices are compared times d, exactly;
+            # rank, kernel dimensions, conservativity and consistency are those of the integer network (C17_scaling_invariant)
+            for _, _, dd in G.edges(data=True):
+                dd["stoich"] = dd["stoich"] / case["frac_d"]
+        return G
     if v == "bip_str":
         return hypergraph_to_bipartite(H, integer_ids=False)
     if v == "bip_und":
@@ -168,7 +176,122 @@ def _one(*vals):
     return vals[0] if all(v == vals[0] for v in vals) else ["DISAGREE"] + [repr(v) for v in vals]
 
 
+# ------------------------------------------------------------------ the code paths taken when SciPy cannot be imported (round 5)
+# stoich._SCIPY_AVAILABLE is a module-level flag set at import time; with it False _null_space falls back to _svd_null_space (numpy),
+# is_conservative has no LP (None when the kernel has dimension > 1 and no basis column is sign definite) and is_consistent uses the
+# basis scan.  The flag is switched off for the duration of one case.
+
+class _NoSciPy:
+    def __enter__(self):
+        from synkit.CRN.Props import stoich
+        self.m, self.old = stoich, stoich._SCIPY_AVAILABLE
+        stoich._SCIPY_AVAILABLE = False
+        return stoich
+
+    def __exit__(self, *a):
+        self.m._SCIPY_AVAILABLE = self.old
+
+
+def _noscipy_scan(Xv):
+    """oracle inputs of the fall-back model: is some column of the numpy-SVD kernel basis sign definite? (left, right)"""
+    import numpy as np
+    with _NoSciPy() as stoich:
+        L, R = stoich.left_nullspace(Xv), stoich.right_nullspace(Xv)
+    eps = 1e-8
+
+    def scan(B):
+        B = np.atleast_2d(B)
+        return bool(B.size) and any(bool(np.all(B[:, j] > eps) or np.all(B[:, j] < -eps)) for j in range(B.shape[1]))
+    return scan(L), scan(R)
+
+
+def _impl_noscipy(case):
+    import warnings
+    warnings.filterwarnings("ignore")
+    from synkit.CRN.Petri import semiflows
+    H = build(case)
+    Xv = view_of(case, H)
+    with _NoSciPy() as stoich:
+        try:
+            sp, rx, S = stoich.build_S(Xv)
+        except ValueError:
+            return [2]
+        m, n = len(sp), len(rx)
+        L, R = stoich.left_nullspace(Xv), stoich.right_nullspace(Xv)
+        L2, R2 = stoich.left_right_kernels(Xv)
+        P, T = semiflows.find_p_semiflows(Xv), semiflows.find_t_semiflows(Xv)
+        sm = stoich.summary(Xv)
+        rank = stoich.stoichiometric_rank(Xv)
+        cons = stoich.is_conservative(Xv)
+        flag, _w = stoich.compute_conservativity(Xv)
+        consist = stoich.is_consistent(Xv)
+        laws = stoich.integer_conservation_laws(Xv)
+    return [0, True, _one(int(rank), int(sm.rank)),
+            [_one(m, int(L.shape[0]), int(L2.shape[0]), int(P.shape[0])),
+             _one(int(L.shape[1]), int(L2.shape[1]), int(P.shape[1]), int(sm.dim_left_kernel), len(laws))],
+            [_one(n, int(R.shape[0]), int(R2.shape[0]), int(T.shape[0])),
+             _one(int(R.shape[1]), int(R2.shape[1]), int(T.shape[1]), int(sm.dim_right_kernel))],
+            _opt(_one(cons, flag, sm.is_conservative)), _opt(_one(consist, sm.is_consistent))]
+
+
+def _coq_case_noscipy(case):
+    species, rx, S = ref_matrix(case)
+    m, n = len(species), len(rx)
+    if n == 0:
+        rc, scans = dict(r=0, A=[], B=[], A2=[], B2=[], d=1), (False, False)
+    else:
+        rc = X.rank_cert(S, m, n)
+        import warnings
+        warnings.filterwarnings("ignore")
+        scans = _noscipy_scan(view_of(case, build(case)))
+    return "run_noscipy %s %s %s %s %s" % (cnet(case), clist([_cstr(z) for z in case.get("iso", [])]), crcert(rc),
+                                          cbool(scans[0]), cbool(scans[1]))
+
+
+def _oracle_noscipy(case):
+    """without SciPy the kernel bases still have the exact dimensions and annihilate S, and a verdict is either the certified truth or
+    None (inconclusive) - never a wrong definite answer"""
+    import warnings
+    warnings.filterwarnings("ignore")
+    import numpy as np
+    H = build(case)
+    Xv = view_of(case, H)
+    fails = []
+    with _NoSciPy() as stoich:
+        try:
+            sp, rx, S = stoich.build_S(Xv)
+        except ValueError:
+            return []
+        S = np.asarray(S, dtype=float)
+        Si = _imat(S)
+        m, n = len(sp), len(rx)
+        er = X.rank_frac(Si)
+        L = np.atleast_2d(stoich.left_nullspace(Xv))
+        R = np.atleast_2d(stoich.right_nullspace(Xv))
+        cons, consist = stoich.is_conservative(Xv), stoich.is_consistent(Xv)
+        r1 = stoich.stoichiometric_rank(Xv)
+    scale = max(1.0, float(np.abs(S).max()) if S.size else 1.0)
+    if r1 != er:
+        fails.append(dict(clause="rank", detail="without SciPy: stoichiometric_rank=%r exact=%d  S=%r" % (r1, er, Si)))
+    if L.shape != (m, m - er):
+        fails.append(dict(clause="left-kernel-dim", detail="without SciPy (_svd_null_space): left basis shape %r, expected (%d,%d)  S=%r" % (L.shape, m, m - er, Si)))
+    elif L.size and np.abs(L.T @ S).max() > 1e-9 * scale:
+        fails.append(dict(clause="left-kernel-annihilates", detail="without SciPy: max |L^T S| = %g" % np.abs(L.T @ S).max()))
+    if R.shape != (n, n - er):
+        fails.append(dict(clause="right-kernel-dim", detail="without SciPy (_svd_null_space): right basis shape %r, expected (%d,%d)  S=%r" % (R.shape, n, n - er, Si)))
+    elif R.size and np.abs(S @ R).max() > 1e-9 * scale:
+        fails.append(dict(clause="right-kernel-annihilates", detail="without SciPy: max |S R| = %g" % np.abs(S @ R).max()))
+    truth_c, truth_f = exact_truth(Si, m, n)
+    if cons is not None and bool(cons) != truth_c:
+        fails.append(dict(clause="conservative", detail="without SciPy: is_conservative=%r, certified truth %r  S=%r" % (cons, truth_c, Si)))
+    if consist is not None and bool(consist) != truth_f:
+        fails.append(dict(clause="consistent", detail="without SciPy: is_consistent=%r, certified truth %r  S=%r" % (consist, truth_f, Si)))
+    return fails[:3]
+
+
 def impl(case):
+    if case.get("ns"):
+        return _impl_noscipy(case)
     if case.get("raw"):
         return _impl_raw(case)
     if case.get("il"):
@@ -407,6 +530,9 @@ def _impl_core(case, H, Xv=None):
         return [2]
     sp2, rx2, S = stoich.build_S(Xv)
     S0 = stoich.stoichiometric_matrix(Xv)
+    fd = case.get("frac_d", 1)
+    if fd != 1:
+        S, S0, Sm, Sp = (_smat(M_, fd) for M_ in (S, S0, Sm, Sp))
     Si = _imat(S)
     so, eo, mat = H.incidence_matrix(sparse=False)
     m, n = len(sp), len(rx)
@@ -570,6 +696,8 @@ def certificates(S, m, n):
 
 
 def coq_case(case):
+    if case.get("ns"):
+        return _coq_case_noscipy(case)
     if case.get("raw"):
         return _coq_case_raw(case)
     if case.get("il"):
@@ -628,6 +756,8 @@ def node_ids(case):
 # ------------------------------------------------------------------ property oracle
 
 def oracle(case):
+    if case.get("ns"):
+        return _oracle_noscipy(case)
     if case.get("raw"):
         return _oracle_raw(case)
     if case.get("il"):
@@ -814,7 +944,7 @@ def _oracle_core(case, H, Xv=None):
         if H.edges:
             bad("S-shape", "build_S raised ValueError on a network with reactions: %s" % e)
         return fails
-    S = np.asarray(S, dtype=float)
+    S = np.asarray(S, dtype=float) * case.get("frac_d", 1)         # fractional view: S_Q * d, exact for multiples of 1/4
     species = sorted(H.species)
     edges = list(H.edges.values())
     m, n = len(species), len(edges)
@@ -836,6 +966,7 @@ def _oracle_core(case, H, Xv=None):
     if list(so) != list(sp) or inc != got:
         bad("S-incidence", "build_S columns %r vs incidence_matrix columns %r" % (sorted(got.items()), sorted(inc.items())))
     _, _, Sm, Sp = stoich.build_S_minus_plus(Xv)
+    Sm, Sp = np.asarray(Sm, dtype=float) * case.get("frac_d", 1), np.asarray(Sp, dtype=float) * case.get("frac_d", 1)
     if (np.asarray(Sm) < 0).any() or (np.asarray(Sp) < 0).any() or not np.array_equal(np.asarray(Sp) - np.asarray(Sm), S):
         bad("S-entries", "S_plus - S_minus != S or negative entries")
     # --- rank
@@ -929,7 +1060,7 @@ def _oracle_core(case, H, Xv=None):
 
 def shrink(case, fl):
     """Drop reactions / isolated species / decorations while the same clause still fails."""
-    if case.get("states") or case.get("il") or case.get("raw"):
+    if case.get("states") or case.get("il") or case.get("raw") or case.get("ns"):
         return case
     cur = dict(case)
     clause = fl.get("clause")
@@ -960,7 +1091,7 @@ def shrink(case, fl):
 
 
 def neighbours(case, rng):
-    if case.get("states") or case.get("il") or case.get("raw"):
+    if case.get("states") or case.get("il") or case.get("raw") or case.get("ns"):
         return []
     out = []
     for k in range(len(case["rxns"])):
@@ -971,6 +1102,8 @@ def neighbours(case, rng):
 
 
 def nontrivial(case, obs):
+    if case.get("ns"):
+        return isinstance(obs, list) and len(obs) == 7 and isinstance(obs[2], int) and obs[2] > 0
     if case.get("raw"):
         return isinstance(obs, list) and len(obs) == 8 and any(any(x != 0 for x in row) for row in obs[7])
     if case.get("il"):
@@ -988,7 +1121,15 @@ def distribution(cases, obss):
     il = dict(cases={}, laws=0, fallback=0, zero=0, limit_queries=0)
     rawd = dict(cases=0, undirected=0, fractional=0, answers={}, nodes_without_kind=0, nodes_without_flag=0, nodes_without_label=0, junk_nodes=0, edges_without_stoich=0,
                 edges_without_role=0, foreign_values=0)
+    nsd = dict(cases=0, wide=0, conservative={}, consistent={})
     for c, o in zip(cases, obss):
+        if c.get("ns"):
+            nsd["cases"] += 1
+            if isinstance(o, list) and len(o) == 7:
+                nsd["wide"] += isinstance(o[3][0], int) and isinstance(o[4][0], int) and o[4][0] > o[3][0]
+                nsd["conservative"][str(o[5])] = nsd["conservative"].get(str(o[5]), 0) + 1
+                nsd["consistent"][str(o[6])] = nsd["consistent"].get(str(o[6]), 0) + 1
+            continue
         if c.get("raw"):
             rawd["cases"] += 1
             rawd["undirected"] += bool(c["raw"].get("undirected"))
@@ -1037,7 +1178,7 @@ def distribution(cases, obss):
         if isinstance(dl, int) and dl > 1:
             lp_branch += 1
     return dict(matrix_sizes=dict(sorted(sizes.items())), ranks=ranks, verdicts=verd, left_kernel_dims=lk,
-                left_kernel_dim_gt1=lp_branch, views=views, edit_histories=hist, integer_laws=il, raw_attribute_graphs=rawd)
+                left_kernel_dim_gt1=lp_branch, views=views, edit_histories=hist, integer_laws=il, raw_attribute_graphs=rawd, without_scipy=nsd)
 
 
 # ------------------------------------------------------------------ generators
@@ -1447,9 +1588,19 @@ def gen_raw(tier, rng, nets):
     return out
 
 
+def gen_noscipy(tier, rng, nets):
+    """a slice of the net population analysed with stoich._SCIPY_AVAILABLE switched off; wide matrices (more reactions than species: the
+    right kernel has n - rank > 0 vectors that an economy-size SVD would lose) and tall ones, every view"""
+    pool = [c for c in nets if not c.get("states") and c.get("rxns") and not c.get("frac_d")]
+    wide = [c for c in pool if len(c["rxns"]) > len({s_ for _, _, l, r in c["rxns"] for s_, _ in l + r} | set(c.get("iso", [])))]
+    q = tier == "quick"
+    pick = rng.sample(pool, min(len(pool), 90 if q else 700)) + rng.sample(wide, min(len(wide), 60 if q else 500))
+    return [dict(c, ns=True, kind="no-scipy", name=(c.get("name") or c.get("kind", "")) + "/no-scipy") for c in pick]
+
+
 def gen_cases(tier, rng):
     cases = _gen_cases_nets(tier, rng)
-    return cases + gen_intlaw(tier, rng, cases) + gen_raw(tier, rng, cases)
+    return cases + gen_intlaw(tier, rng, cases) + gen_raw(tier, rng, cases) + gen_noscipy(tier, rng, cases)
 
 
 def _gen_cases_nets(tier, rng):
@@ -1496,6 +1647,12 @@ def _gen_cases_nets(tier, rng):
         nrand, ncons = 6000, 2500
         cases += G.coeff_sweep(2, rng, "exh-coeff{0,1,2}<=2")
         cases += G.sample_alphabet(3, 8000, rng, "sample-alphabet-3")
+    # fractional coefficients on a caller-supplied graph: the textbook way to write H2 + 1/2 O2 >> H2O, and a few more
+    for rx_, d_ in ((["2 H2 + O2 >> 2 H2O"], 2), (["2 H2O2 >> 2 H2O + O2", "2 H2 + O2 >> 2 H2O"], 2), (["4 A + 2 B >> 3 C", "C >> A"], 4),
+                    (["A + B >> C", "C >> A + B"], 2)):
+        cf = G.net_from_strings(rx_, "fractional", name="fractional/" + ",".join(rx_))
+        cf.update(view="bip_int", frac_d=d_)
+        cases.append(cf)
     for _ in range(nrand):
         c = G.random_net(rng)
         if c["view"] != "hyper" and rng.random() < 0.4:      # node ids unrelated to the labels
@@ -1507,6 +1664,8 @@ def _gen_cases_nets(tier, rng):
         elif c["view"] != "hyper" and rng.random() < 0.5:    # node insertion order unrelated to the labels
             c["view"] = "bip_shuf"
             c["perm_seed"] = rng.randrange(10 ** 6)
+        elif c["view"] == "bip_int" and rng.random() < 0.6:  # every coefficient written c / d on the arcs (fractional graph input)
+            c["frac_d"] = rng.choice([2, 4])
         cases.append(c)
     for _ in range(ncons):
         cases.append(G.conservative_net(rng))
